@@ -1,6 +1,6 @@
 """C01 -- multiplication routes vs. the textbook GF(2) product (see DESIGN 5/C01)."""
 BOUNDS = {
- "quick": "naive/va routes FULL: m in {1,2,3}, l in {1,5,63,64,65,70}, n in {1,3,53,54,64,70}; M4RM FULL (all bits of A and B symbolic) 16 x l x 54 for l in {1,2,3,5,16,17}, k in {1,2}; M4RM REGION (A symbolic, B concrete / B band symbolic, A concrete) up to 32x70x130 with k in {0,2,3,4,5}; mzd_mul/mzd_addmul wrappers at base-case sizes; squaring dispatch A==B; tiny-L3 configuration (block size 16: two giant steps)",
+ "quick": "naive/va routes FULL: m in {1,2,3}, l in {1,5,63,64,65,70}, n in {1,3,53,54,64,70}; M4RM FULL (all bits of A and B symbolic) 16 x l x 54 for l in {1,2,3,5,16,17}, k in {1,2}; M4RM REGION (A symbolic, B concrete / B band symbolic, A concrete) up to 32x70x130 with k in {0,1,2,3,4,5}; mzd_mul/mzd_addmul wrappers at base-case sizes; squaring dispatch A==B; tiny-L3 configuration (block size 16: two giant steps)",
  "thorough": "adds naive m<=8,l<=130; M4RM FULL l<=24, k in {2,3}, n in {54,64,65,70}, m in {16,17}; more REGION shapes and seeds; k in 0..10",
 }
 OUTSIDE = "fully symbolic products with inner dimension > 24 (only band-wise); Strassen-Winograd recursion with symbolic matrix bits (shape-level and schedule-level checks only, see strassen queries); shapes beyond the grid"
@@ -47,7 +47,7 @@ def plan(tier, seed):
               timeout=1500, fallback="kissat", mem_gb=8)
     # ---- M4RM REGION: A fully symbolic, B concrete (linear in A? no: selects table rows) ; B band symbolic, A concrete
     reg = []
-    for k in ([0, 2, 3, 4] if not T else [0, 1, 2, 3, 4, 5, 6, 7, 8, 9, 10]):
+    for k in ([0, 1, 2, 3, 4] if not T else [0, 1, 2, 3, 4, 5, 6, 7, 8, 9, 10]):
         reg.append((16, 70, 54, k)); reg.append((17, 33, 70, k))
     reg += [(32, 70, 130, 0), (33, 17, 128, 2)] + ([(20, 130, 65, 3), (16, 64, 64, 8), (16, 65, 64, 8)] if T else [(16, 65, 64, 5)])
     for (m, l, n, k) in reg:
